@@ -35,7 +35,7 @@ PARTIAL = ('proved for every size N over any commutative ring with partial inver
            'covered only by the oracle search, not by the model; N-d dot / matmul: the sum-of-products index pattern is '
            'proved (C15_dot_nd_def, C15_matmul_nd_def, C15_dot_scalar_def) for the flat model that the correspondence ties to numpy; '
            'N-d transpose: index map modelled and tied by correspondence, permutation property proved for 2-D and checked by execution for 3-D; '
-           'integer-dtype inv/invab, plain integer ndarrays and lists with solve/inv/det, bool arrays are kept out of the generator (defects reported); '
+           'arguments that are not object-dtype uarrays misbehave in four ways (known finding C15-4: modelled / recognised, generated); '
            'la.matmul with operands of different rank (one of them >= 3-D) raises IndexError: known finding C15-3, modelled as such')
 ASSUMPTIONS = ['rounding error of float arithmetic is not bounded by proof (theorems are over exact rings)',
                "numpy's object-array dot (OBJECT_dot: first product, then left-to-right additions), transpose and "
@@ -83,6 +83,19 @@ def is_known(f):
     new object and its constructor asserts (AssertionError, seen through numpy's dot as SystemError).
     (C15-1, zero-valued right-hand sides carrying uncertainty, is FIXED: such inputs are failures again.)"""
     why = str(f.get('why', ''))
+    # C15-4: arguments that are not object-dtype uarrays -- exactly four sub-classes
+    fn = f.get('fn'); lu = fn in ('solve', 'inv', 'det', 'invab')
+    adt, aform = f.get('a_dtype'), f.get('a_form')
+    wrong_value = not ('raised' in why or 'modified' in why or 'accepted' in why)
+    if lu and 'list' in (aform, f.get('b_form')) and 'raised AttributeError' in why:
+        return True                                      # (3) nested lists have no .dtype / .shape
+    if lu and adt == 'bool' and 'raised UFuncTypeError' in why:
+        return True                                      # (4) unary + on numpy booleans in UncertainArray.copy()
+    if adt in ('int64', 'int32') and fn in ('inv', 'invab') and wrong_value:
+        return True                                      # (1) result allocated with the integer dtype: truncated
+    if adt in ('int64', 'int32') and aform == 'ndarray' and lu and \
+            (wrong_value or 'raised RuntimeError: singular pivot element' in why):
+        return True                                      # (2) plain integer ndarray: copy keeps the dtype, stores truncate
     # C15-3: la.matmul / @ with operands of DIFFERENT rank, at least one of rank >= 3, raises IndexError
     if f.get('fn') == 'matmulN' and 'raised IndexError' in why:
         ra, rb = len(f['na']['shape']), len(f['nb']['shape'])
@@ -151,3 +164,29 @@ def kf_matmul_different_rank():
         except Exception as ex:
             seen.append(type(ex).__name__)
     return seen == ['IndexError', 'IndexError'], {'outcomes': seen}
+
+def kf_non_object_arguments():
+    """C15-4, one input per sub-class: (1) la.inv of an int64 uarray is truncated to zeros, (2) la.solve / la.det of plain
+    int ndarrays are truncated ([0,0,0] / 24 instead of 18), (3) la.solve / la.det / la.inv of nested lists raise
+    AttributeError, (4) la.det of a bool uarray raises UFuncTypeError.  Reproduces iff all four still misbehave."""
+    import numpy as np, warnings
+    from GTC import la
+    new_context(94)
+    M = [[2, 1, 0], [1, 3, 1], [0, 1, 4]]; B = [1, 2, 3]
+    seen = {}
+    with warnings.catch_warnings():
+        warnings.simplefilter('ignore')
+        r = la.inv(la.uarray(np.array(M)))
+        seen['inv_int_uarray_truncated'] = bool(np.all(np.asarray(r) == 0))
+        x = la.solve(np.array(M), np.array(B)); d = la.det(np.array(M))
+        seen['int_ndarray_truncated'] = bool(np.all(np.asarray(x) == 0)) and float(d) != 18.0
+        errs = []
+        for call in (lambda: la.solve(M, B), lambda: la.det(M), lambda: la.inv(M)):
+            try: call(); errs.append('ok')
+            except Exception as ex: errs.append(type(ex).__name__)
+        seen['lists'] = errs
+        try: la.det(la.uarray(np.array(M, dtype=bool))); seen['bool'] = 'ok'
+        except Exception as ex: seen['bool'] = type(ex).__name__
+    ok = seen['inv_int_uarray_truncated'] and seen['int_ndarray_truncated'] and \
+        seen['lists'] == ['AttributeError'] * 3 and seen['bool'] == 'UFuncTypeError'
+    return ok, seen
